@@ -511,9 +511,13 @@ class LLSWorld(World):
             orig_update = alg.update
             cnt = {"n": 0, "flagged": False}
 
+            mid_at = budget - max(1, budget // 5) if budget > 50 else -1
+
             def counting_update():
                 orig_update()
                 cnt["n"] += 1
+                if cnt["n"] == mid_at:
+                    out["x_mid"] = np.array(app.x, copy=True)
                 if judge_ledger and not cnt["flagged"] and (cnt["n"] <= 50 or cnt["n"] % 97 == 0):
                     badl = ledger.verify(outputs=[app.x])
                     if badl:
@@ -646,7 +650,19 @@ class LLSWorld(World):
         Lg = float(np.linalg.norm(Ad.conj().T @ (Ad @ xv - y))) + lam * float(np.linalg.norm(xv)) + 1.0
         gap_eff = gap + Lg * infeas  # an infeasible point may undercut F*
         res.note_max("objective_gap_over_tol." + str(eff), gap / tol)
-        if gap_eff > tol or gap < -tol - Lg * infeas * 10:
+        still_converging = False
+        if gap_eff > tol and r1.get("x_mid") is not None and r1["updates"] >= BUDGET.get(eff, 0):
+            # The fixed iteration budget ran out. A run that is still contracting its gap by
+            # 30 % over the last fifth of the budget is slow (ill-conditioned instance), not
+            # wrong: wrong formulas stall at a wrong point or diverge.
+            gap_mid = F(r1["x_mid"]) - Fs
+            if np.isfinite(gap_mid) and gap_mid > 0 and gap < 0.7 * gap_mid:
+                still_converging = True
+                stats["probes.budget_exhausted_still_converging"] += 1
+                res.note_max("unjudged_gap_over_tol." + str(eff), gap / tol)
+        if still_converging:
+            pass
+        elif gap_eff > tol or gap < -tol - Lg * infeas * 10:
             self._flag(res, "not_the_documented_minimiser", site, 0,
                        {"gap": gap, "tol": tol, "F_ret": F(xv), "F_star": Fs, "F0": F0, "A": plan["A"]["kind"], "G": gkG,
                         "g": gk, "lamda": lam, "z": z is not None, "updates": r1["updates"], "steps_given": k["steps_given"],
